@@ -102,6 +102,7 @@ type gen struct {
 	tokens   []bridgeTok
 	nSmall   int               // the last nSmall oracles bond the minimum: a proposal can drop several of them at once
 	lastGas  map[string]uint64 // gas used by the last successful transaction of a kind (boundary-biased gas limits)
+	probes   [][2]string       // (op line, observation) of UpdateProposalOracles probes against the real keeper
 }
 
 // bridgeTok is a many-to-one coin registered by governance whose aliases are its bridge denominations.
@@ -916,6 +917,28 @@ func (g *gen) run() {
 		g.voteAllT(props[pi].id, props[pi].vote, pi != 2 && pi != 6 && pi != 7 && pi != 8)
 	}
 	g.endBlock(short, "votes")
+	// correspondence probes of UpdateProposalOracles on a discarded branch of the committed state (all oracles bonded)
+	g.probeUpdateOracles(dropSmall)
+	g.probeUpdateOracles(dropBig)
+	g.probeUpdateOracles(oracleAddrs)
+	for k := 0; k < 6; k++ {
+		var sub []string
+		for _, a := range oracleAddrs {
+			if g.rng.Intn(4) != 0 {
+				sub = append(sub, a)
+			}
+		}
+		if g.rng.Intn(3) == 0 {
+			sub = append(sub, g.users[1].Addr()) // never bonded
+		}
+		g.rng.Shuffle(len(sub), func(i, j int) { sub[i], sub[j] = sub[j], sub[i] })
+		g.probeUpdateOracles(sub)
+	}
+	var many []string
+	for k := 0; k < 101; k++ {
+		many = append(many, detx.CosmosKey(g.seed, fmt.Sprintf("many%d", k)).Addr())
+	}
+	g.probeUpdateOracles(many)
 	g.endBlock(7*day+time.Second, "7-day custom voting periods end")
 	g.endBlock(7*day+time.Second, "14-day voting periods end")
 
@@ -1014,6 +1037,87 @@ func (g *gen) oracleDrops(current []string) (small, big []string) {
 		}
 	}
 	return small, big
+}
+
+// probeUpdateOracles runs the real UpdateProposalOracles on a branch of the committed state and records the op line for
+// the Lean machine model (oracles in store order with power / online / delegation, stored proposal, new list) together
+// with the observation: the error kind, or the dropped oracles in the order of the unbonding ids x/staking gave them.
+func (g *gen) probeUpdateOracles(newList []string) {
+	eth := g.c.App.EthKeeper
+	sk := g.c.App.StakingKeeper
+	ctx, _ := g.c.Ctx().CacheContext()
+	ctx = ctx.WithEventManager(sdk.NewEventManager())
+	all := eth.GetAllOracles(ctx, false)
+	list := func(l []string) string {
+		if len(l) == 0 {
+			return "-"
+		}
+		return strings.Join(l, ",")
+	}
+	ids := func(o crosschaintypes.Oracle) map[uint64]bool {
+		out := map[uint64]bool{}
+		if ubd, err := sk.GetUnbondingDelegation(ctx, o.GetDelegateAddress(ethChain), o.GetValidator()); err == nil {
+			for _, e := range ubd.Entries {
+				out[e.UnbondingId] = true
+			}
+		}
+		return out
+	}
+	var os []string
+	before := map[string]map[uint64]bool{}
+	for _, o := range all {
+		del := uint64(0)
+		if tok, err := eth.GetOracleDelegateToken(ctx, o.GetDelegateAddress(ethChain), o.GetValidator()); err == nil && tok.IsPositive() {
+			del = tok.Quo(sdkmath.NewInt(1e18)).Uint64() + 1
+		}
+		on := 0
+		if o.Online {
+			on = 1
+		}
+		os = append(os, fmt.Sprintf("%s:%s:%d:%d", o.OracleAddress, o.GetPower().String(), on, del))
+		before[o.OracleAddress] = ids(o)
+	}
+	old, _ := eth.GetProposalOracle(ctx)
+	op := fmt.Sprintf("updateoracles %s | %s | %s", list(os), list(old.Oracles), list(newList))
+	obs := ""
+	if err := eth.UpdateProposalOracles(ctx, newList); err != nil {
+		switch {
+		case strings.Contains(err.Error(), "oracle length must be less"):
+			obs = "err:too-many"
+		case strings.Contains(err.Error(), "max change power"):
+			obs = "err:max-change"
+		default:
+			obs = "err:unbond"
+		}
+	} else {
+		type nu struct {
+			addr string
+			id   uint64
+		}
+		var fresh []nu
+		for _, o := range all {
+			for id := range ids(o) {
+				if !before[o.OracleAddress][id] {
+					fresh = append(fresh, nu{o.OracleAddress, id})
+				}
+			}
+		}
+		for i := 1; i < len(fresh); i++ {
+			for j := i; j > 0 && fresh[j].id < fresh[j-1].id; j-- {
+				fresh[j], fresh[j-1] = fresh[j-1], fresh[j]
+			}
+		}
+		var order []string
+		for _, f := range fresh {
+			order = append(order, f.addr)
+		}
+		obs = "ok:" + list(order)
+		g.out.Count(fmt.Sprintf("probe-updateoracles:unbonded=%d", len(order)))
+	}
+	if strings.HasPrefix(obs, "err") {
+		g.out.Count("probe-updateoracles:" + obs)
+	}
+	g.probes = append(g.probes, [2]string{op, obs})
 }
 
 func mustAny(c crosschaintypes.ExternalClaim) *codectypes.Any {
